@@ -18,7 +18,7 @@ import sys
 
 VERIF = os.path.dirname(os.path.dirname(os.path.abspath(__file__)))
 SEEDED = os.path.join(VERIF, 'seeded')
-BASE = '/tmp/mt_seedeval'
+BASE = os.environ.get('EVAL_BASE', '/tmp/mt_seedeval')
 WT = BASE + '/repo'
 VF = BASE + '/verif'
 
@@ -70,6 +70,9 @@ def evaluate(name, ids):
     ev['checks'][i] = {'exit': rc, 'lines': lines[-3:], 'caught': rc == 1 and any(l.startswith('VIOLATION') for l in lines),
                        'with_failing_input': any(l.startswith('VIOLATION') and 'no-failing-input-found' not in l for l in lines)}
   sh('git -C %s checkout -q -- .' % WT)
+  if os.environ.get('EVAL_NO_RECORD'):
+    print(name, 'seed', os.environ.get('VERIF_SEED'), {k: ('CAUGHT' + ('' if v['with_failing_input'] else '(no-input)')) if v['caught'] else 'missed' for k, v in ev['checks'].items()})
+    return ev
   meta['evaluation'] = ev
   meta['what_was_run'] = ('tools/eval_seeded.py run %s %s: demo.py on a clean worktree of /repo HEAD (exit %s) and with patch.diff applied '
                           '(exit %s); python3 tools/baseline.py on the patched worktree (%s); ./check <id> from a private copy of /verif '
